@@ -226,3 +226,153 @@ Example c06_source_example :
   effs = [PAcquire 999%Z; PSendData [255; 0; 1; 0xAA; 0; 3]; PAwaitFuture 7 10; PRelease] /\
   r = PyValue [XP (VI 0); XP (VB [1; 0])].
 Proof. vm_compute. repeat split. Qed.
+
+(* ---- the racing schedule (model/EzspRace.v, proofs/EzspRace_proofs.v) ------------------------------------
+   A frame and the expiry of the command timeout of the call that waits under the frame's sequence number in ONE
+   event-loop iteration: asyncio runs the I/O callback (the entry is popped, the future resolved), then the due
+   timer (the waiting task is cancelled before it resumed), and the call ends with TimeoutError whatever the frame
+   carried ([race_step]; observed on the real classes, see the header of model/EzspRace.v; the correspondence
+   runs this schedule through Driver.race_frame).
+   Vocabulary (proofs/EzspRace_proofs.v):
+     revent := REv e | RRace d ;  rstep / rrun ;  routs es, rfinal es, rcalls es, rcalls_unique es as above over rrun
+     rreachable st := st = rfinal es for some es with rcalls_unique es
+     frame_of e    := the frame an event hands to __call__ (REv (EFrame d) and RRace d)
+     racing st d s expected call c := d carries number s, s is pending for (expected, call), call's record c is
+                      waiting without a reply
+     race_events st d := [EFrame (DOk s (expected + 1) false []); ETimeout call] when racing, [EFrame d] otherwise
+     flat r        := (fst r, concat (snd r))                                                              *)
+Require Import BV.model.EzspRace BV.proofs.EzspRace_proofs.
+
+(* what the step is: the plain frame step when no call waits (without a reply) under the frame's number, otherwise
+   the entry is popped and the call ends by the timeout, the slot being released *)
+Theorem c06_race_step : forall st d,
+  (race_step st d = proto_step st (EFrame d) /\ forall s e call c, ~ racing st d s e call c)
+  \/ (exists s e call c, racing st d s e call c /\
+        race_step st d = finish (pop_awaiting st s) call (ORaise call KTimeout)).
+Proof. exact race_spec. Qed.
+
+(* state and outputs of a race step are those of two plain events: a frame with a foreign frame id under that
+   number (pops the entry, completes nobody), then the timeout of the call -- so every state reached with race
+   steps is a state of the plain machine and all the theorems above that assume [reachable st] apply to it *)
+Theorem c06_race_as_plain_events : forall st d, race_step st d = flat (proto_run st (race_events st d)).
+Proof. exact race_as_plain. Qed.
+
+Theorem c06_race_reachable : forall st, rreachable st -> reachable st.
+Proof. exact rreachable_reachable. Qed.
+
+(* the reply that races the timeout never completes a call with its payload ... *)
+Theorem c06_race_never_returns : forall st d id vs, rreachable st -> ~ In (OReturn id vs) (snd (race_step st d)).
+Proof. exact race_never_returns. Qed.
+
+(* ... and a race never ends a DIFFERENT call: the only call that ends in a race step is the one that waits under
+   the frame's own sequence number, sent under exactly that number, and it ends with the timeout *)
+Theorem c06_race_no_cross : forall st d id o, rreachable st ->
+  In o (snd (race_step st d)) -> ends id o ->
+  o = ORaise id KTimeout /\
+  exists s f inv vs f0 c, d = DOk s f inv vs /\ aw_get s (p_awaiting st) = Some (f0, id) /\
+    call_get id (p_calls st) = Some c /\ k_stage c = PWaiting /\ k_seq c = s /\ k_fid c = f0.
+Proof. exact race_no_cross. Qed.
+
+(* the call under the frame's number raises the timeout in that very step -- whether the frame is its own response,
+   an invalidCommand or another command's response --, it is over, and no pending entry names it any more *)
+Theorem c06_race_times_out : forall st s f inv vs f0 id c, rreachable st ->
+  aw_get s (p_awaiting st) = Some (f0, id) -> call_get id (p_calls st) = Some c -> k_stage c = PWaiting ->
+  let r := race_step st (DOk s f inv vs) in
+  In (ORaise id KTimeout) (snd r) /\
+  call_get id (p_calls (fst r)) = None /\
+  (forall s' f', ~ In (s', (f', id)) (p_awaiting (fst r))) /\
+  ~ In (s, (f0, id)) (p_awaiting (fst r)).
+Proof. exact race_times_out. Qed.
+
+(* the frame that matched a pending entry is not handed to the callbacks; one that answers no pending call is
+   delivered exactly once and nothing else happens; one for a call still inside send_data is the plain frame *)
+Theorem c06_race_pending_not_callback : forall st s f inv vs x f' vs',
+  aw_get s (p_awaiting st) = Some x ->
+  ~ In (OCallback f' vs') (snd (race_step st (DOk s f inv vs))).
+Proof. exact race_pending_not_callback. Qed.
+
+Theorem c06_race_callbacks_once : forall st s f inv vs,
+  aw_get s (p_awaiting st) = None ->
+  race_step st (DOk s f inv vs) = (st, [OCallback f vs]).
+Proof. exact race_callbacks_once. Qed.
+
+Theorem c06_race_while_sending : forall st s f inv vs f0 id c,
+  aw_get s (p_awaiting st) = Some (f0, id) -> call_get id (p_calls st) = Some c -> k_stage c = PSending ->
+  race_step st (DOk s f inv vs) = proto_step st (EFrame (DOk s f inv vs)).
+Proof. exact race_while_sending. Qed.
+
+(* the send slot is released and handed to the head of the queue (priority order) in the same step, under the next
+   sequence number: for every step of a run with race steps, and for the race step in particular *)
+Theorem c06_race_slot_handed_on_any_step : forall st e id o p n id' q c', rreachable st ->
+  p_holder st = Some id -> p_queue st = (p, n, id') :: q -> call_get id' (p_calls st) = Some c' ->
+  In o (snd (rstep st e)) -> ends id o ->
+  In (OSend id' (p_seq st) (k_fid c')) (snd (rstep st e)) /\
+  p_holder (fst (rstep st e)) = Some id' /\ p_queue (fst (rstep st e)) = q.
+Proof. exact rslot_handed_on. Qed.
+
+Theorem c06_race_slot_handed_on : forall st s f inv vs f0 id c p n id' q c', rreachable st ->
+  aw_get s (p_awaiting st) = Some (f0, id) -> call_get id (p_calls st) = Some c -> k_stage c = PWaiting ->
+  p_queue st = (p, n, id') :: q -> call_get id' (p_calls st) = Some c' ->
+  let r := race_step st (DOk s f inv vs) in
+  In (OSend id' (p_seq st) (k_fid c')) (snd r) /\ p_holder (fst r) = Some id' /\ p_queue (fst r) = q.
+Proof. exact race_slot_handed_on. Qed.
+
+Theorem c06_race_slot_released : forall st s f inv vs f0 id c, rreachable st ->
+  aw_get s (p_awaiting st) = Some (f0, id) -> call_get id (p_calls st) = Some c -> k_stage c = PWaiting ->
+  p_queue st = [] -> p_holder (fst (race_step st (DOk s f inv vs))) = None.
+Proof. exact race_slot_released. Qed.
+
+(* the slot / queue / calls invariant ([Inv], proofs/EzspProto_proofs.v: in-flight calls hold the slot, the queue
+   lists exactly the queued calls in priority order, nobody queues while the slot is free, a waiting call has no
+   reply) is kept by every step, race steps included *)
+Theorem c06_race_invariant_kept : forall st e, Inv st ->
+  (forall id p f, e = REv (ECall id p f) -> call_get id (p_calls st) = None) ->
+  Inv (fst (rstep st e)).
+Proof. exact rstep_Inv. Qed.
+
+(* the run-level statements of C06 over every run with race steps *)
+Theorem c06_race_one_in_flight : forall es, rcalls_unique es ->
+  (List.length (in_flight (rfinal es)) <= 1)%nat /\
+  (forall c, In c (in_flight (rfinal es)) -> p_holder (rfinal es) = Some (k_id c)).
+Proof. exact rone_in_flight. Qed.
+
+Theorem c06_race_priority_order : forall es, rcalls_unique es ->
+  StronglySorted q_before (p_queue (rfinal es)).
+Proof. exact rqueue_sorted. Qed.
+
+Theorem c06_race_no_slot_leak : forall es, rcalls_unique es ->
+  p_holder (rfinal es) = None -> p_queue (rfinal es) = [] /\ in_flight (rfinal es) = [].
+Proof. exact rno_slot_leak. Qed.
+
+Theorem c06_race_slot_held_by_in_flight : forall es h, rcalls_unique es ->
+  p_holder (rfinal es) = Some h -> exists c, In c (in_flight (rfinal es)) /\ k_id c = h.
+Proof. exact rholder_in_flight. Qed.
+
+Theorem c06_race_seq_mod_256 : forall es, rcalls_unique es ->
+  map (fun x => snd (fst x)) (sends (routs es)) =
+    map (fun k => N.of_nat k mod 256) (seq 0 (List.length (sends (routs es)))).
+Proof. exact rseq_consecutive. Qed.
+
+Theorem c06_race_own_response : forall es id vs, rcalls_unique es ->
+  In (OReturn id vs) (routs es) ->
+  exists es1 e es2 s f, es = es1 ++ e :: es2 /\ frame_of e = Some (DOk s f false vs) /\
+                        In (OSend id s f) (routs es1).
+Proof. exact rown_response. Qed.
+
+(* frames handled by plain steps after (or before) a race complete only the call registered under their number:
+   the frame that raced, arriving again, completes nobody *)
+Theorem c06_race_later_frames_no_cross : forall st s f inv vs id vs', rreachable st ->
+  In (OReturn id vs') (snd (proto_step st (EFrame (DOk s f inv vs)))) ->
+  aw_get s (p_awaiting st) = Some (f, id) /\ inv = false /\ vs' = vs.
+Proof. exact rno_cross. Qed.
+
+(* non-vacuity: call 1 (ordinary) waits under number 0, call 2 (keep-alive) is queued; the reply of call 1 is handled
+   in the iteration in which its timeout expires: call 1 raises the timeout, call 2 is sent under number 1 in the
+   same step; the same frame once more goes to the callbacks *)
+Example c06_race_example :
+  let d := DOk 0 10 false [XNone] in
+  let es := [REv (ECall 1 0 10); REv (ECall 2 999 5); REv (ESendDone 1 true); RRace d; REv (EFrame d)] in
+  nth 3 (snd (rrun p_init es)) [] = [ORaise 1 KTimeout; OSend 2 1 5] /\
+  nth 4 (snd (rrun p_init es)) [] = [OCallback 10 [XNone]] /\
+  p_awaiting (rfinal es) = [(1, (5, 2))] /\ p_holder (rfinal es) = Some 2.
+Proof. vm_compute. repeat split. Qed.
